@@ -19,7 +19,7 @@ def run(run, model):
         for kind in ("PRE", "POST"):
             for ev in ck.by_kind.get(kind, []):
                 later = ck.ids(ck.checked_bodies) | {ck.cfg.exit_return.id} if kind == "PRE" else {ck.cfg.exit_return.id}
-                ok, detail, node = ck.gate(ev, later)
+                ok, detail, node = ck.gate(ev, later, user_value=True)
                 run.check(ok, "C11.no-drop", "%s:%s" % (ck.fi.qual, kind), "the error returned by the evaluation is tested and raised; never discarded", detail, ck.loc(node), None, first_line(node.stmt))
     run.do(c09.invariant_raise_site, model, "C11.no-drop")
     run.minimum("C11.release-on-all-exits", 5)
